@@ -130,7 +130,10 @@ class GenerateWasmVisitor(Visitor.DefaultVisitor):
         self, vai: LinearIR.VariableAccessInstruction, ctx: Context
     ):
         assert ctx.Code
-        if vai.Scope == LinearIR.VariableAccessScope.FUNCTION_ARGUMENT:
+        if (
+            vai.Scope == LinearIR.VariableAccessScope.FUNCTION_ARGUMENT
+            and vai.Store is None
+        ):
             index = vai.Variable
             ctx.Code.AddInstruction(
                 WebAssembly.Instruction(
@@ -143,6 +146,17 @@ class GenerateWasmVisitor(Visitor.DefaultVisitor):
                     (ctx.GetLocalForReference(vai.Reference),),
                 )
             )
+        else:
+            raise RuntimeError(
+                f"Unsupported variable access for WebAssembly: {vai.OpCode} {vai.Scope}"
+            )
+
+    def v_Instruction(self, instruction: LinearIR.Instruction, ctx: Context):
+        # Reached for every instruction class that has no handler of its own.
+        # Such an instruction must not be dropped from the generated code
+        raise RuntimeError(
+            f"Unsupported instruction for WebAssembly: {instruction.OpCode}"
+        )
 
     def __PushValueOntoStack(self, value: LinearIR.Value, ctx: Context):
         assert ctx.Code
@@ -159,14 +173,17 @@ class GenerateWasmVisitor(Visitor.DefaultVisitor):
     def v_BinaryInstruction(self, bi: LinearIR.BinaryInstruction, ctx: Context):
         assert ctx.Code
 
-        if isinstance(bi.Type, LinearIR.IntegerType):
+        # The instruction is selected by the type of the operands (the result
+        # of a comparison is an int, whatever is compared)
+        operandType = bi.Values[0].Type
+        if isinstance(operandType, LinearIR.IntegerType):
             operationType = "i32"
-            unsigned = bi.Type.Unsigned
-        elif isinstance(bi.Type, LinearIR.FloatType):
+            unsigned = operandType.Unsigned
+        elif isinstance(operandType, LinearIR.FloatType):
             operationType = "f32"
         else:
             raise RuntimeError(
-                f"Unsupported type for binary operation: {bi.Type}"
+                f"Unsupported type for binary operation: {operandType}"
             )
 
         for value in bi.Values:
